@@ -147,6 +147,25 @@ func Trees(big bool, maxChain int) []Tree {
 		add(fmt.Sprintf("map<str,%d>x4", et), m)
 		add(fmt.Sprintf("struct{list<%d>,map}", et), ref.Value{T: ref.STRUCT, F: []ref.Field{{ID: 1, V: v}, {ID: 2, V: m}, {ID: 3, V: Small(ref.I64, 0)}}})
 	}
+	// sizes that need more than one byte of the 4-byte size field
+	{
+		l := ref.Value{T: ref.LIST, Elem: ref.BYTE}
+		for i := 0; i < 0x0102; i++ {
+			l.L = append(l.L, ref.Value{T: ref.BYTE, I: uint64(i)})
+		}
+		add("list<byte>x258", l)
+		m := ref.Value{T: ref.MAP, Key: ref.I16, Elem: ref.BOOL}
+		for i := 0; i < 0x0201; i++ {
+			m.L = append(m.L, ref.Value{T: ref.I16, I: uint64(i)}, ref.Value{T: ref.BOOL, I: uint64(i & 1)})
+		}
+		add("map<i16,bool>x513", m)
+		add("string/0x0103", ref.Value{T: ref.STRING, S: bigString(0x0103)})
+		st := ref.Value{T: ref.SET, Elem: ref.STRING}
+		for i := 0; i < 0x0101; i++ {
+			st.L = append(st.L, ref.Value{T: ref.STRING, S: []byte(fmt.Sprintf("%d", i))})
+		}
+		add("set<string>x257", st)
+	}
 	// wide values: many siblings at one level (a per-sibling cost must not eat the recursion budget)
 	for _, n := range []int{63, 64, 65, 70, 200} {
 		w := ref.Value{T: ref.STRUCT}
